@@ -20,7 +20,7 @@ from vlib.symx import engine, deep_eq, z3_and, z3_not, z3_or, z3_implies, SBool,
 
 def k1(shape):
     eng = engine()
-    sim = chain.Sim(reorg_limit=10, daemon_height=shape.get('daemon_height', 5))
+    sim = chain.Sim(reorg_limit=shape.get('reorg_limit', 10), daemon_height=shape.get('daemon_height', 5))
     sim.collide = {frozenset(p) for p in shape.get('collide', [])}
     try:
         sim.open()
@@ -89,6 +89,12 @@ def k1_shapes(tier):
         for i, s in enumerate(scheds):
             out.append({'blocks': blocks, 'flush': list(s) + ['n'], 'depth': depth, 'new': new,
                         'reopen': i % 2 == 0, 'restart_before': i % 3 == 1})
+    # the fork is exactly as deep as the reorg limit and every block was indexed while the daemon was already at
+    # the tip (multi-block catch-up): the undo window must reach down to tip - limit + 1
+    for blocks, depth, new in (base if tier == 'thorough' else base[1:3]):
+        n = len(blocks)
+        out.append({'blocks': blocks, 'flush': ['n'] * (n - 1) + ['n'], 'depth': depth, 'new': new, 'reopen': True,
+                    'restart_before': depth == 1, 'reorg_limit': depth, 'daemon_height': n - 1})
     if tier == 'thorough':
         out.append({'blocks': [cbA, cbB, sp1], 'flush': ['n', 'f', 'n'], 'depth': 1, 'new': [sp1],
                     'collide': [['a0t0', 'a1t0'], ['a0t0', 'n0t1']], 'reopen': True})
